@@ -191,7 +191,10 @@ class _Lib:
 
     def finfo(self, _):
         # tiny: symbolic (>0) regulariser; eps: the float64 machine epsilon (the replay runs real torch in float64)
-        return types.SimpleNamespace(tiny=_TINY[0], eps=float(np.finfo(np.float64).eps), max=float(np.finfo(np.float64).max))
+        eps = float(np.finfo(np.float64).eps)
+        if core.is_sym(_TINY[0]):  # symbolic run: a proxy constant with the exact value 2^-52 (a python float this small would be lifted as 0)
+            eps = SReal(z3.RealVal("1/4503599627370496"))
+        return types.SimpleNamespace(tiny=_TINY[0], eps=eps, max=float(np.finfo(np.float64).max))
 
     def clamp(self, t, min=None, max=None):
         a = np.asarray(t.a, dtype=object)
